@@ -791,13 +791,13 @@ def run(chk):
 
 META = {
     "category": "other",
-    "engine": "FLOW + TNA(axis tracking)",
+    "engine": "FLOW + TNA(axis tracking) + whole-function interpretation on exact data",
     "technique": "abstract interpretation (own ast interpreter, nothing of /repo is executed) of the MPO builder on symbolic terms, tables and operands: term table, one-site dispatcher, site-tensor layout, Op.split_elementary; whole-function interpretation of _deduplicate_table, _decompose_graph and _decompose_qr on small exact tables (exact array model, scipy's QR as an oracle) with the coefficient table reconstructed from the result; def-use / dtype / narrow-integer dataflow lints on the remaining readers",
-    "text": "Structural necessary conditions only: offset sign and row, total algorithm dispatch, guarded 16-bit casts, factor dtype, axis "
-            "layout agreement between the builder and apply/todense, intra-site order. Breaking any of them breaks the operator (wrong "
-            "constant, transposed operator, unreachable algorithm, silent index wrap-around, dropped imaginary parts). Exactness of the "
-            "decomposition for every term table is runtime combinatorics / floating point and is not decided."
-            " The builder's layout and the provenance of the local matrices are decided by an abstract run of symbolic_mo_to_numeric_mo / compose_symbolic_mo; the QR shortcut's guard is evaluated over a shape grid.",
+    "text": "Structural necessary conditions (offset sign and row, total algorithm dispatch, guarded 16-bit casts, factor dtype, axis layout agreement between the builder and "
+            "apply/todense, intra-site order) plus a bounded exactness statement: the two one-site decompositions, the chain builder as a whole (graph algorithms; 2-5 sites) and the "
+            "one-term short cut, interpreted from source on a finite set of small exact term tables (shared prefixes / suffixes, long-range pairs, hubs, rank deficiency, coefficients far "
+            "below the code's tolerances; scipy's pivoted QR as an oracle), return operators that expand to the term table with its coefficients. Not decided: exactness for every term "
+            "table (the tables are a finite set), the QR algorithm inside the whole builder, floating point, swap exactness.",
     "note": "The apply() contraction side of the layout is decided in C03 (merge-order rule), the contraction kernels in C07/C08.",
     "design_ref": "DESIGN.md 3.5, 3.2 (R4), 4 (C01); as built: 9.1, 9.3, 9.8",
 }
